@@ -21,6 +21,10 @@ pub fn check_pair(c: &PairCase, st: &mut Stats) -> Result<(), Failure> {
     let ctx = || format!("A = {} = {:?}, B = {} = {:?}", c.a.show(), a.text, c.b.show(), b.text);
     let d = val_of(guard(|| ra.difference(rb)).map_err(|p| Failure::new("difference-panics", format!("{}: difference panicked: {}", ctx(), p)))?)?;
     let i = val_of(guard(|| ra.intersect(rb)).map_err(|p| Failure::new("intersect-panics", format!("{}: intersect panicked: {}", ctx(), p)))?)?;
+    let again = guard(|| ra.difference(rb)).map_err(|p| Failure::new("difference-panics", format!("{}: second difference panicked: {}", ctx(), p)))?;
+    if again != d.range {
+        return Err(Failure::new("difference-not-deterministic", format!("{}: A\\B = {:?} the first time and {:?} the second", ctx(), d.text, again.map(|r| r.to_string()))));
+    }
     let pv = probes_of(&[&a, &b, &d], &c.extra);
     let multi = b.model.ivs.len() >= 2;
     if multi {
